@@ -80,6 +80,9 @@ def build_facts(config='default', repo=None, target_dir=None, quiet=True):
     feats, ovf = CONFIGS[config]
     th = tree_hash(config, repo)
     facts = os.path.join(CACHE, 'facts-%s-%s.json' % (config, th))
+    if os.path.realpath(repo) != '/repo':
+        # scratch copy under test: its facts live (and die) with the copy
+        facts = os.path.join(repo, '.kvfacts-%s-%s.json' % (config, th))
     lock = open(os.path.join(CACHE, 'lock-%s' % config), 'w')
     fcntl.flock(lock, fcntl.LOCK_EX)
     try:
